@@ -11,6 +11,7 @@ import (
 	"strconv"
 	"strings"
 	"sync"
+	"syscall"
 
 	"grog/internal/zverif/vs"
 )
@@ -35,6 +36,44 @@ const (
 
 type FileMode = os.FileMode
 type Process = os.Process
+type FileInfo = os.FileInfo
+
+func SameFile(a, b FileInfo) bool { return os.SameFile(a, b) }
+
+func Stat(name string) (FileInfo, error) {
+	step("stat")
+	fi, err := os.Stat(name)
+	W.event("p%d stats the lock path -> %v", W.self(), short(err))
+	return fi, err
+}
+
+func inode(fi FileInfo) uint64 {
+	if st, ok := fi.Sys().(*syscall.Stat_t); ok {
+		return st.Ino
+	}
+	return 0
+}
+
+// TryLockFile replaces the locker's flock helper: a scheduling/crash point followed by the real flock.
+func TryLockFile(f *File) error {
+	if f == nil {
+		return os.ErrInvalid
+	}
+	step("flock")
+	err := syscall.Flock(int(f.f.Fd()), syscall.LOCK_EX|syscall.LOCK_NB)
+	w := W
+	me := w.self()
+	if err == nil {
+		if fi, serr := f.f.Stat(); serr == nil {
+			w.mu.Lock()
+			w.flockedBy[inode(fi)] = me
+			f.locked = true
+			w.mu.Unlock()
+		}
+	}
+	w.event("p%d flock(lock file #%d) -> %v", me, f.gen, short(err))
+	return err
+}
 
 func FindProcess(pid int) (*os.Process, error) { return os.FindProcess(pid) }
 
@@ -49,9 +88,12 @@ type World struct {
 	OnCrash func(pid int)
 	// lock-file ownership tracking for classifying a mutual exclusion failure
 	gen        int
-	owner      int            // pid that created the current lock file (0 = none / pre-existing)
-	ownerWrote bool           // owner finished writing its pid
-	lastView   map[int]string // pid -> what the process last observed about the lock file
+	owner      int             // pid that created the current lock file (0 = none / pre-existing)
+	ownerWrote bool            // owner finished writing its pid
+	lastView   map[int]string  // pid -> what the process last observed about the lock file
+	flockedBy  map[uint64]int  // inode -> pid holding the kernel lock on it
+	openFiles  map[int][]*File // pid -> files it has open (closed by the "kernel" when the process crashes)
+	inoGen     map[uint64]int
 	HarmfulLog []string
 	FirstHarm  string
 	Events     []string
@@ -60,7 +102,7 @@ type World struct {
 var W *World
 
 func NewWorld() *World {
-	W = &World{pidOf: map[int]int{}, alive: map[int]bool{}, crashed: map[int]bool{}, lastView: map[int]string{}}
+	W = &World{pidOf: map[int]int{}, alive: map[int]bool{}, crashed: map[int]bool{}, lastView: map[int]string{}, flockedBy: map[uint64]int{}, openFiles: map[int][]*File{}}
 	return W
 }
 
@@ -130,7 +172,12 @@ func step(site string) {
 		w.alive[pid] = false
 		w.crashed[pid] = true
 		cb := w.OnCrash
+		files := w.openFiles[pid]
+		w.openFiles[pid] = nil
 		w.mu.Unlock()
+		for _, f := range files {
+			f.closeQuietly() // a dead process's descriptors are closed by the kernel (releases its flock)
+		}
 		w.event("p%d CRASHES before %s", pid, site)
 		if cb != nil {
 			cb(pid)
@@ -156,8 +203,67 @@ func ProcessRunning(pid int) bool {
 }
 
 type File struct {
-	f   *os.File
-	gen int
+	f      *os.File
+	gen    int
+	locked bool
+	closed bool
+}
+
+func (f *File) closeQuietly() {
+	w := W
+	w.mu.Lock()
+	if f.closed {
+		w.mu.Unlock()
+		return
+	}
+	f.closed = true
+	if f.locked {
+		if fi, err := f.f.Stat(); err == nil {
+			delete(w.flockedBy, inode(fi))
+		}
+	}
+	w.mu.Unlock()
+	f.f.Close()
+}
+
+func (f *File) Fd() uintptr { return f.f.Fd() }
+
+func (f *File) Stat() (FileInfo, error) {
+	if f == nil {
+		return nil, os.ErrInvalid
+	}
+	return f.f.Stat()
+}
+
+func (f *File) Truncate(n int64) error {
+	if f == nil {
+		return os.ErrInvalid
+	}
+	step("truncate")
+	return f.f.Truncate(n)
+}
+
+func (f *File) WriteAt(b []byte, off int64) (int, error) {
+	if f == nil {
+		return 0, os.ErrInvalid
+	}
+	step("write")
+	n, err := f.f.WriteAt(b, off)
+	w := W
+	w.mu.Lock()
+	if w.gen == f.gen && err == nil {
+		w.ownerWrote = true
+	}
+	w.mu.Unlock()
+	w.event("p%d writes its pid into lock file #%d", w.self(), f.gen)
+	return n, err
+}
+
+func (f *File) Read(b []byte) (int, error) {
+	if f == nil {
+		return 0, os.ErrInvalid
+	}
+	return f.f.Read(b)
 }
 
 func OpenFile(name string, flag int, perm FileMode) (*File, error) {
@@ -169,14 +275,40 @@ func OpenFile(name string, flag int, perm FileMode) (*File, error) {
 		return nil, err
 	}
 	w.mu.Lock()
-	w.gen++
-	w.owner = w.pidOf[vs.ThreadID()]
-	w.ownerWrote = false
-	w.lastView[w.owner] = "its-own-lock"
+	me := w.pidOf[vs.ThreadID()]
 	g := w.gen
+	created := flag&os.O_EXCL != 0
+	if fi, serr := f.Stat(); serr == nil && flag&os.O_EXCL == 0 {
+		// without O_EXCL the path may have existed: a new generation only for a new inode
+		if w.inoGen == nil {
+			w.inoGen = map[uint64]int{}
+		}
+		if old, ok := w.inoGen[inode(fi)]; ok {
+			g = old
+		} else {
+			w.gen++
+			g = w.gen
+			w.inoGen[inode(fi)] = g
+			created = true
+		}
+	} else if created {
+		w.gen++
+		g = w.gen
+	}
+	if flag&os.O_EXCL != 0 {
+		w.owner = me
+		w.ownerWrote = false
+		w.lastView[me] = "its-own-lock"
+	}
+	file := &File{f: f, gen: g}
+	w.openFiles[me] = append(w.openFiles[me], file)
 	w.mu.Unlock()
-	w.event("p%d open -> created lock file #%d", w.self(), g)
-	return &File{f: f, gen: g}, nil
+	if created {
+		w.event("p%d open -> created lock file #%d", w.self(), g)
+	} else {
+		w.event("p%d open -> opened existing lock file #%d", w.self(), g)
+	}
+	return file, nil
 }
 
 func (f *File) Write(b []byte) (int, error) {
@@ -199,7 +331,8 @@ func (f *File) Close() error {
 	if f == nil {
 		return os.ErrInvalid
 	}
-	return f.f.Close()
+	f.closeQuietly()
+	return nil
 }
 
 func ReadFile(name string) ([]byte, error) {
@@ -227,11 +360,20 @@ func Remove(name string) error {
 	w.mu.Lock()
 	owner, wrote, g := w.owner, w.ownerWrote, w.gen
 	w.mu.Unlock()
+	var lockedBy int
+	if fi, serr := os.Stat(name); serr == nil {
+		w.mu.Lock()
+		lockedBy = w.flockedBy[inode(fi)]
+		w.mu.Unlock()
+	}
 	err := os.Remove(name)
 	me := w.self()
 	if err == nil {
 		harm := ""
-		if owner != 0 && owner != me && w.IsAlive(owner) {
+		if lockedBy != 0 && lockedBy != me && w.IsAlive(lockedBy) {
+			harm = "kernel-locked-file-of-live-holder-unlinked"
+			owner = lockedBy
+		} else if owner != 0 && owner != me && w.IsAlive(owner) {
 			w.mu.Lock()
 			view := w.lastView[me]
 			w.mu.Unlock()
